@@ -1,5 +1,6 @@
 import PoolModel.C11
 import PoolProofs.C11Lemmas
+import PoolProofs.C11Overflow
 /-! # C11 — reserved value covers the worst-case debit; orders never over-commit an account
 
 Headline theorems about the executable model `PoolModel/C11.lean` (+ `PoolModel/Float64.lean`).
@@ -323,6 +324,24 @@ theorem C11_version_clause (ver : Nat) (bs : List BatchFills)
   · exact traderWitness_le_legacy _
   · exact traderWitness_upgrade h1 h2 h3
 
+/-! ## the model's unbounded integers agree with Go's `int64` inside the stated domain -/
+
+/-- closed form of `ReservedValue` for an active order with a non-zero minimum match -/
+theorem C11_reserved_closed_form (fs : FeeSchedule) (o : Order) (ver : Nat)
+    (hna : archived o.state = false) (hm : 0 < o.minUnitsMatch) :
+    orderReservedValue fs o ver =
+      .ok (if closedBalanceDelta fs o ver < 0 then -closedBalanceDelta fs o ver else 0) :=
+  reservedValue_closed fs o ver hna hm
+
+/-- **No `int64` overflow inside the domain**: every integer Go computes on the way to `ReservedValue` – the satoshi
+amounts, `amt*feeRate`, the float premiums after truncation (all ≤ 2^49, so also far below the 2^63 limit of the
+float→int conversion), the per-match deltas, `maxNumMatches * perMatchDelta`, the chain-fee products and the running
+balance delta – lies in `[-2^63, 2^63)`. Hence the unbounded arithmetic of the model is Go's arithmetic there. -/
+theorem C11_no_int64_overflow (fs : FeeSchedule) (o : Order) (ver : Nat)
+    (hD : inDomain fs o = true) (hm : 0 < o.minUnitsMatch) :
+    ∀ v ∈ reservedIntermediates fs o ver, -(2 : Int) ^ 63 ≤ v ∧ v < (2 : Int) ^ 63 :=
+  reserved_intermediates_in64 fs o ver hD hm
+
 /-! ## the statement without the guards, and why each guard is there -/
 
 /-- The reserve inequality for an order, as the English text reads when no admission guard is added. -/
@@ -434,5 +453,10 @@ example : validateOrder [exAsk, { exBid with acctKey := 1 }] exBid ⟨0, 2000000
 /-- `C11_version_clause`: a taproot account (version 1) upgraded to version 2 before a later batch -/
 example : ∀ b ∈ ([⟨800, 1, [⟨2, 4000, 0⟩]⟩, ⟨900, 2, [⟨2, 4000, 0⟩]⟩] : List BatchFills),
     (1 : Nat) = 0 ∨ (1 ∈ knownAccountVersions ∧ b.ver ∈ knownAccountVersions ∧ 1 ≤ b.ver) := by decide
+
+/-- `C11_no_int64_overflow` / `C11_reserved_closed_form`: the example bid is inside the domain; its closed-form
+    balance delta is −9718 and the list of intermediates has 32 entries (remainder branch) -/
+example : inDomain exFs exBid = true ∧ 0 < exBid.minUnitsMatch ∧ archived exBid.state = false ∧
+    closedBalanceDelta exFs exBid 0 = -9718 ∧ (reservedIntermediates exFs exBid 0).length = 32 := by decide
 
 end Pool.C11
